@@ -247,7 +247,37 @@ func evalC05(c *engine.Case) engine.Verdict {
 	return v
 }
 
+// genC05GenMemo: a value-dependent converter generator (it emits its
+// converter only for values carrying an odd token) whose option object is
+// used by two calls in a row: first with a value it has nothing for, then --
+// the call under test -- with a value of the same label it does convert.
+func genC05GenMemo(g engine.G) *engine.Case {
+	perm := rapidPerm(g, []int{0, 1, 2, 3, 4, 5})
+	from, to := perm[0], perm[1]
+	l := engine.Label{Type: from, Dyn: from}
+	if g.Pct(40) {
+		l.Name = engine.Pick(g, engine.AllNames)
+	}
+	if g.Pct(30) {
+		l.Sub = engine.Pick(g, engine.AllSubs)
+	}
+	sc := &engine.Scenario{
+		Inputs:      []engine.Input{{L: l, Tok: 3}},
+		PriorInputs: []engine.Input{{L: l, Tok: 2}},
+		Gens:        []engine.GenSpec{{ID: 1, From: from, To: to, Mode: "odd"}},
+		Target:      engine.FuncSpec{ID: engine.TargetID, In: []engine.Label{{Type: to, Dyn: to}}, InForm: engine.GenForm(g), OutForm: engine.FormPos},
+	}
+	if g.Pct(40) {
+		// some more supplied values the generator is not interested in
+		sc.Inputs = append(sc.Inputs, engine.Input{L: engine.Label{Type: perm[2], Dyn: perm[2]}, Tok: 5})
+	}
+	return &engine.Case{Sc: sc, Reps: 2}
+}
+
 func genC05(g engine.G) *engine.Case {
+	if g.Pct(3) {
+		return genC05GenMemo(g)
+	}
 	o := engine.DefaultFuncOpts()
 	o.AllowOnce = true
 	o.FailP = 8
